@@ -1,5 +1,5 @@
 """Registry: property id -> check function(prop, tier, verdict) -> (level, coverage, assumptions)."""
-import eng_sess, eng_hub, eng_disp, eng_corr, eng_data, eng_plug
+import eng_sess, eng_hub, eng_disp, eng_corr, eng_data, eng_plug, eng_generic
 
 SESS_ASSUME = [
     'the in-memory connection of the harness behaves like a reliable byte stream (delivered bytes stay readable after the peer closes; writes fail after a close)',
@@ -80,8 +80,48 @@ def c09(prop, tier, verdict):
     cov['distinct_nontrivial'] += pcov['plug_nontrivial']
     return 'model_checking', cov, DISP_ASSUME + ['placement trees: 0-2 global-left, 0-2 global-right, 0-3 nested groups with 0-1 plugin, 1-2 sibling handlers with 0-1 plugin, optionally one global plugin appended after the routes exist (its hooks on route chains are unconstrained)']
 
+def c16(prop, tier, verdict):
+    def cl(line, s):
+        return 'auth:%s/first=%s,pipe=%s,timing=%s,hook=%s-%s' % (line.get('ev'), s.get('first'), s.get('pipe'), s.get('timing'), s.get('hookpos'), s.get('hookverdict'))
+    cov, _ = eng_generic.run(prop, tier, verdict, 'Accept', 'auth', 'PAuth', cl, mc_cfg='Accept_mc.cfg', min_count=400,
+                             nontrivial=lambda s: s['first'] != 'authgood' or s['pipe'] != 'none')
+    return 'model_checking', cov, ['ServeConn path over the in-memory connection with the shipped auth checker plugin; the ListenAndServe path is not driven',
+                                   'client behaviours: 11 first-message classes x 4 pipelining classes x 2 timings x 5 placements/verdicts of another accept hook (440 scenarios, all replayed)']
+
+def c17(prop, tier, verdict):
+    def cl(line, s):
+        return 'secure:%s/kind=%s,marker=%s,accept=%s,enforce=%s,keys=%s,codec=%s' % (line.get('ev'), s.get('kind'), s.get('marker'), s.get('accept'), s.get('enforce'), s.get('keys'), s.get('codec'))
+    cov, _ = eng_generic.run(prop, tier, verdict, 'Secure', 'secure', 'PSecure', cl, mc_cfg='Secure_mc.cfg', min_count=500,
+                             nontrivial=lambda s: s['marker'] != 'none' or s['accept'] != 'absent' or s['enforce'])
+    return 'model_checking', cov, ['matrix complete: kind x secure marker x accept-secure x enforced secure reply x equal/different keys x key length 16/24/32 x codec json/protobuf x 4 body classes',
+                                   'clear-text detection searches the captured bytes for the 31-character random tag (and the head of the padding); the cipher itself is not analysed',
+                                   'the combination secure request + accept-secure=false is left unconstrained (statement and plugin disagree)']
+
+def c18(prop, tier, verdict):
+    import vlib
+    wd = vlib.scratch('ovat')
+    ra = vlib.tlc_must_hold('OverloadAtomic', 'OverloadAtomic_mc.cfg', workdir=wd, workers=4, timeout=300)
+    vlib.cleanup(wd)
+    def cl(line, s):
+        ops = [x['op'] for x in s.get('steps', [])]
+        if s.get('rate'):
+            return 'overload:rate:%s' % line.get('ev')
+        # which kind of operation preceded the rejected event
+        return 'overload:%s:after-%s%s' % (line.get('ev'), line.get('op') or (ops[-1] if ops else '?'), ':rejected-before' if any(x['op'] in ('connect', 'burst') and x['admitted'] < x['k'] for x in s.get('steps', [])) else '')
+    rates = [{'rate': {'cap': c, 'interval_ms': 50, 'bursts': b, 'waits_ms': w}, 'steps': []}
+             for c in (1, 3) for b, w in (([6, 6, 6], [120, 30]), ([2, 8, 3, 8], [10, 160, 10]))]
+    cov, _ = eng_generic.run(prop, tier, verdict, 'Overload', 'overload', 'POverload', cl, consts={'MaxOps': '7', 'GuardRelease': 'TRUE', 'Limits': '{1, 2}'},
+                             mc_cfg='Overload_mc.cfg', extra_cfg='VIEW view', min_count=200, nontrivial=lambda s: len(s.get('steps', [])) > 2, extra_scenarios=rates)
+    cov['atomic_model'] = 'spec/OverloadAtomic.tla: 3 concurrent take/release threads at atomic-operation granularity, limit 2: %d distinct states, NeverOver holds' % ra['distinct']
+    return 'model_checking', cov, ['connection limit 1..3, histories of at most 7 operations (connect, concurrent burst of 2-3 connects, disconnect, close, raise of the limit), one scenario per transition of the model',
+                                   'the interleavings of the limiter\'s atomic operations are model-checked (design level) and exercised by the concurrent bursts, not replayed step by step',
+                                   'rate limit: real ticker (50 ms), bursts of concurrent calls, bound = tokens that can be in the bucket with one tick of slack']
+
 CHECKS = {
     'C01': c01,
+    'C18': c18,
+    'C17': c17,
+    'C16': c16,
     'C11': c11,
     'C05': c05,
     'C12': c12,
